@@ -141,8 +141,10 @@ def outcome(ev, d=None):
     return hashlib.sha1(r.encode()).hexdigest()[:16], r[:300], p
 
 
-def state_digest():
+def state_digest(d=None):
     r = repr(observe.module_state())
+    if d:
+        r = r.replace(d, "<D>")     # every history has its own copy of the include files
     return hashlib.sha1(r.encode()).hexdigest()[:16], r[:400]
 
 
@@ -162,7 +164,7 @@ def _exec_history(task):
                 ver = M[k][1]
                 open(os.path.join(d, "sub.xbb"), "w").write(SUB[ver])
             dg, desc, _ = outcome(M[k], d)
-            sd, sdesc = state_digest()
+            sd, sdesc = state_digest(d)
             out.append((dg, desc.replace(d, "<D>"), (hashlib.sha1((sd + ver).encode()).hexdigest()[:16], sdesc.replace(d, "<D>") + " files=" + ver), ver))
         return out
     finally:
